@@ -21,7 +21,7 @@ RULE = ("one evaluation = one batch (whole file or one chunk-schedule's concaten
         "bucket, presence of '.'/signed/scientific spellings, extra columns)")
 BUDGET = {"quick": (6000, 40), "thorough": (90000, 900)}
 
-FORMAT_WEIGHTS = [(3, "bed3"), (3, "bed6"), (2, "bed12"), (3, "bdg"), (3, "narrowpeak"), (1, "sizes"), (3, "vcf"), (3, "vcfinfo"), (2, "vcfgt"),
+FORMAT_WEIGHTS = [(3, "bed3"), (3, "bed6"), (2, "bed12"), (3, "bdg"), (3, "narrowpeak"), (1, "sizes"), (3, "vcf"), (3, "vcfinfo"), (2, "vcfgt"), (2, "wig"), (2, "gff3"), (2, "gfa"), (2, "pairs"),
                   (3, "sam"), (2, "gtf"), (2, "fasta2"), (3, "fastaw"), (3, "fastq")]
 
 
